@@ -613,6 +613,32 @@ fn relations(rep: &mut Report, rng: &mut Rng, store: &AnnotationStore, model: &M
         }
     }
 
+    // 7b. the same question through the iterator API
+    for (c, o) in cs.iter().zip(&singles) {
+        if let Some(got) = o.set() {
+            if o.rows().map(|r| r.len() >= MAXROWS).unwrap_or(true) {
+                continue;
+            }
+            let api = guard(|| iterator_api(store, rt, c));
+            match api {
+                Err(pn) => rep.violation(format!("C08/iterator-api/{}/{}/panic/{}", rtname(rt), c.kind(), pn.class()), ctx(sd, &QS::new(rt, vec![c.clone()]), json!({"panic": pn.msg.clone(), "at": pn.loc.clone()}))),
+                Ok(None) => {}
+                Ok(Some(expect)) => {
+                    rep.eval();
+                    rep.distinct(&format!("iterator-api/{}/{}", rtname(rt), c.kind()));
+                    rep.count(&format!("iterator-api/{}/{}/{}", rtname(rt), c.kind(), if expect.is_empty() { "empty" } else { "rows" }));
+                    if got != expect {
+                        let kind = if got.is_subset(&expect) { "query-misses" } else if expect.is_subset(&got) { "query-has-more" } else { "differs" };
+                        rep.violation(
+                            format!("C08/iterator-api/{}/{}/{}", rtname(rt), c.kind(), kind),
+                            ctx(sd, &QS::new(rt, vec![c.clone()]), json!({"query_rows": got, "iterator_api_rows": expect})),
+                        );
+                    }
+                }
+            }
+        }
+    }
+
     // duplicate-free results for single constraints
     for (c, o) in cs.iter().zip(&singles) {
         if let (Some(rows), Some(set)) = (o.rows(), o.set()) {
@@ -800,6 +826,70 @@ fn permute(rest: &[usize], cur: &mut Vec<usize>, out: &mut Vec<Vec<usize>>) {
         cur.push(x);
         permute(&r, cur, out);
         cur.pop();
+    }
+}
+
+/// the same question asked through the high-level iterator API (items and their accessors), for the
+/// combinations whose documented meaning is unambiguous. Data-related constraints are answered by a scan
+/// with item-level accessors rather than by the index-driven call the evaluator itself uses.
+fn iterator_api(store: &AnnotationStore, rt: Type, c: &CS) -> Option<BTreeSet<Row>> {
+    let row_a = |a: &ResultItem<Annotation>| vec![format!("annotation:{}", a.handle().as_usize())];
+    let row_d = |d: &ResultItem<AnnotationData>| vec![format!("data:{}:{}", d.set().handle().as_usize(), d.handle().as_usize())];
+    let row_k = |k: &ResultItem<DataKey>| vec![format!("key:{}:{}", k.set().handle().as_usize(), k.handle().as_usize())];
+    let row_t = |t: &ResultTextSelection| vec![format!("text:{}:{}-{}", t.resource().handle().as_usize(), t.begin(), t.end())];
+    let row_r = |r: &ResultItem<TextResource>| vec![format!("resource:{}", r.handle().as_usize())];
+    let row_s = |s: &ResultItem<AnnotationDataSet>| vec![format!("dataset:{}", s.handle().as_usize())];
+    let data_match = |d: &ResultItem<AnnotationData>, set: &str, key: &str, op: Option<&OpS>| -> bool {
+        d.set().id() == Some(set) && d.key().id() == Some(key) && op.map(|o| d.value().test(&o.op())).unwrap_or(true)
+    };
+    match (rt, c) {
+        (Type::Annotation, CS::Id(id)) => Some(store.annotation(id.as_str()).iter().map(row_a).collect()),
+        (Type::Annotation, CS::Res(id, false)) => Some(store.resource(id.as_str())?.annotations().map(|a| row_a(&a)).collect()),
+        (Type::Annotation, CS::Res(id, true)) => Some(store.resource(id.as_str())?.annotations_as_metadata().map(|a| row_a(&a)).collect()),
+        (Type::Annotation, CS::Set(id, false)) => {
+            store.dataset(id.as_str())?;
+            Some(store.annotations().filter(|a| a.data().any(|d| d.set().id() == Some(id.as_str()))).map(|a| row_a(&a)).collect())
+        }
+        (Type::Annotation, CS::Set(id, true)) => Some(store.dataset(id.as_str())?.annotations().map(|a| row_a(&a)).collect()),
+        (Type::Annotation, CS::Ann(id, false, rec)) => Some(
+            store.annotation(id.as_str())?.annotations_in_targets(if *rec { AnnotationDepth::Max } else { AnnotationDepth::One }).map(|a| row_a(&a)).collect(),
+        ),
+        (Type::Annotation, CS::Ann(id, true, false)) => Some(store.annotation(id.as_str())?.annotations().map(|a| row_a(&a)).collect()),
+        (Type::Annotation, CS::Key(s, k, false)) => {
+            store.key(s.as_str(), k.as_str())?;
+            Some(store.annotations().filter(|a| a.data().any(|d| data_match(&d, s, k, None))).map(|a| row_a(&a)).collect())
+        }
+        (Type::Annotation, CS::KeyVal(s, k, op, false)) => {
+            store.key(s.as_str(), k.as_str())?;
+            Some(store.annotations().filter(|a| a.data().any(|d| data_match(&d, s, k, Some(op)))).map(|a| row_a(&a)).collect())
+        }
+        (Type::Annotation, CS::Val(op)) => Some(store.annotations().filter(|a| a.data().any(|d| d.value().test(&op.op()))).map(|a| row_a(&a)).collect()),
+        (Type::AnnotationData, CS::Set(id, false)) => Some(store.dataset(id.as_str())?.data().map(|d| row_d(&d)).collect()),
+        (Type::AnnotationData, CS::Key(s, k, false)) => {
+            store.key(s.as_str(), k.as_str())?;
+            Some(store.data().filter(|d| data_match(d, s, k, None)).map(|d| row_d(&d)).collect())
+        }
+        (Type::AnnotationData, CS::KeyVal(s, k, op, false)) => {
+            store.key(s.as_str(), k.as_str())?;
+            Some(store.data().filter(|d| data_match(d, s, k, Some(op))).map(|d| row_d(&d)).collect())
+        }
+        (Type::AnnotationData, CS::Val(op)) => Some(store.data().filter(|d| d.value().test(&op.op())).map(|d| row_d(&d)).collect()),
+        (Type::AnnotationData, CS::Ann(id, false, _)) => Some(store.annotation(id.as_str())?.data().map(|d| row_d(&d)).collect()),
+        (Type::DataKey, CS::Set(id, false)) => Some(store.dataset(id.as_str())?.keys().map(|k| row_k(&k)).collect()),
+        (Type::DataKey, CS::Ann(id, false, _)) => Some(store.annotation(id.as_str())?.keys().map(|k| row_k(&k)).collect()),
+        (Type::TextSelection, CS::Res(id, _)) => Some(store.resource(id.as_str())?.textselections().map(|t| row_t(&t)).collect()),
+        (Type::TextSelection, CS::Ann(id, _, _)) => Some(store.annotation(id.as_str())?.textselections().map(|t| row_t(&t)).collect()),
+        (Type::TextSelection, CS::Key(s, k, _)) => {
+            store.key(s.as_str(), k.as_str())?;
+            Some(store.annotations().filter(|a| a.data().any(|d| data_match(&d, s, k, None))).flat_map(|a| a.textselections().map(|t| row_t(&t)).collect::<Vec<_>>()).collect())
+        }
+        (Type::TextSelection, CS::KeyVal(s, k, op, _)) => {
+            store.key(s.as_str(), k.as_str())?;
+            Some(store.annotations().filter(|a| a.data().any(|d| data_match(&d, s, k, Some(op)))).flat_map(|a| a.textselections().map(|t| row_t(&t)).collect::<Vec<_>>()).collect())
+        }
+        (Type::TextResource, CS::Id(id)) | (Type::TextResource, CS::Res(id, _)) => Some(store.resource(id.as_str()).iter().map(row_r).collect()),
+        (Type::AnnotationDataSet, CS::Id(id)) | (Type::AnnotationDataSet, CS::Set(id, _)) => Some(store.dataset(id.as_str()).iter().map(row_s).collect()),
+        _ => None,
     }
 }
 
